@@ -315,9 +315,10 @@ impl<'a> Lexer<'a> {
             (utf8_shape(old(self).input@) && boundary(old(self).input@, old(self).pos as int)) ==> boundary(old(self).input@, final(self).pos as int),
     {
         let start_pos = self.pos;
-        let first = self.bump().unwrap_or(EOF);
-        let kind = match first {
-            EOF => Kind::Eof,
+        let first = self.bump();
+        let kind = match first.unwrap_or(EOF) {
+            // only the real end of input is Eof; a literal NUL byte in the text is not
+            EOF if first.is_none() => Kind::Eof,
             _ if self.in_path.in_path() => self.path(),
             byte if is_ascii_whitespace(byte) => self.whitespace(),
             b'#' => self.comment(),
@@ -652,6 +653,19 @@ fn is_ascii_whitespace(byte: u8) -> (r: bool)
 }
 
 
+
+pub proof fn fv_vacuity_probe_wf_and_utf8(l: Lexer)
+    requires wf(l), l.pos < l.input@.len(), l.input@.len() >= 3, utf8_shape(l.input@), boundary(l.input@, l.pos as int),
+        l.input@[0] >= 0xC0, cont(l.input@[1]),
+    ensures false,
+{
+}
+
+pub proof fn fv_vacuity_probe_stop_clauses(s: Seq<u8>, a: int, b: int)
+    requires 0 <= a < b < s.len(), ascii_stop(s, a, b), delim_stop(s, a, b), utf8_shape(s), boundary(s, a), boundary(s, b),
+    ensures false,
+{
+}
 
 // ---- the tiling lemma: iterating next_token from 0 until Eof consumes the whole input ------
 // Model of a driver loop over the *contract* of next_token only (T1-T3): if each step returns
